@@ -6,6 +6,7 @@ import os
 from fractions import Fraction
 
 import numpy as np
+import z3
 
 from symex import arrays, core, stubs
 from symex.core import all_, and_, any_, implies, not_, or_
@@ -14,6 +15,8 @@ from symex.harness import Case, Twin
 PROPERTY = "C16"
 FUNCTIONS = ["ibldsp.voltage.saturation"]
 ASSUMPTIONS = [
+    "proportion lemma: the real saturation() runs on an abstract array of nc x 1 samples of which only the number k of channels beyond the range is known (nc, k 16-bit symbolic, exact in float64); "
+    "np.mean / np.count_nonzero over the channels return k/nc (IEEE division) / k; proportion = the double nearest to a/100, a in 1..99; the flag is compared with the integer statement 100 k > a nc by cvc5 (QF_BVFP)",
     "floats as exact reals; 0.98 is the exact value of the double constant; fs and the slew limit positive",
     "scipy.signal.convolve(flags, win, 'same') = textbook convolution with SciPy's centring (validated against real SciPy on random 0/1 vectors on every run); the cosine window values are real SciPy's",
     "a channel whose slew equals the limit exactly is a don't-care (statement: 'exceed', code: '>='): flag must lie between the strict and the non-strict reading",
@@ -95,6 +98,110 @@ def case_saturation(ctx, nc, ns, win, per_channel, sym_fs, as_list=False):
         ctx.oblige("mute_is_function_of_flags_only", core.eq(m, expect), detail={"t": t})
 
 
+# ------------------------------------------------------------------------------------------------ IEEE lemma for the proportion test
+class _CountMask:
+    """a (nc, ns) boolean matrix of which only the number of True per sample is known: k of nc at the single sample"""
+    ndim = 2
+
+    def __init__(self, k_fp, nc_fp, ns):
+        self.k, self.nc, self.ns = k_fp, nc_fp, ns
+        self.shape = (nc_fp, ns)
+
+    def __array_function__(self, func, types, args, kwargs):
+        axis = kwargs.get("axis", args[1] if len(args) > 1 else None)
+        if axis != 0:
+            raise core.Unsupported("count mask: only reductions over the channels")
+        if func is np.mean:
+            return arrays.mk([self.k / self.nc for _ in range(self.ns)], tag=np.dtype(float))
+        if func in (np.count_nonzero, np.sum):
+            return arrays.mk([self.k for _ in range(self.ns)], tag=np.dtype(float))
+        raise core.Unsupported(f"count mask: numpy.{func.__name__}")
+
+    def mean(self, axis=None, **kw):
+        return self.__array_function__(np.mean, (), (self,), {"axis": axis})
+
+    def sum(self, axis=None, **kw):
+        return self.__array_function__(np.sum, (), (self,), {"axis": axis})
+
+
+class _CountedData:
+    """|data| of nc channels at ONE sample, k of them beyond the range limit; nc and k are symbolic (exact in float64)"""
+    ndim = 2
+
+    def __init__(self, k_fp, nc_fp):
+        self.k, self.nc = k_fp, nc_fp
+        self.shape = (nc_fp, 1)
+
+    def __array_ufunc__(self, ufunc, method, *inputs, **kw):
+        if method != "__call__":
+            raise core.Unsupported("counted data: ufunc method")
+        if ufunc is np.absolute:
+            return self
+        if ufunc in (np.greater, np.greater_equal) and inputs[0] is self:
+            return _CountMask(self.k, self.nc, 1)
+        if ufunc in (np.true_divide, np.multiply) and inputs[0] is self:
+            return self
+        raise core.Unsupported(f"counted data: ufunc {ufunc.__name__}")
+
+    def __abs__(self):
+        return self
+
+    def __gt__(self, o):
+        return _CountMask(self.k, self.nc, 1)
+
+    def __array_function__(self, func, types, args, kwargs):
+        if func is np.diff:          # a single sample has no "next sample": the slew matrix is empty
+            return _CountedData0(self.nc)
+        if func is np.roll:
+            return self
+        raise core.Unsupported(f"counted data: numpy.{func.__name__}")
+
+
+class _CountedData0(_CountedData):
+    def __init__(self, nc_fp):
+        self.k, self.nc = None, nc_fp
+        self.shape = (nc_fp, 0)
+
+    def __array_ufunc__(self, ufunc, method, *inputs, **kw):
+        if ufunc in (np.greater, np.greater_equal) and inputs[0] is self:
+            return _CountMask(None, self.nc, 0)
+        return self
+
+    def __ge__(self, o):
+        return _CountMask(None, self.nc, 0)
+
+    def __gt__(self, o):
+        return _CountMask(None, self.nc, 0)
+
+    def __truediv__(self, o):
+        return self
+
+
+def case_proportion_ieee(ctx, max_nc):
+    """in IEEE double arithmetic (cvc5): with nc channels of which k exceed the range at a sample and the proportion written as the decimal
+    a/100, the sample is flagged exactly when 100 k > a nc - for every nc <= max_nc, 0 <= k <= nc, 1 <= a <= 99"""
+    from symex import fp
+    import ibldsp.voltage as v
+    W = 16
+    k, nc, a = z3.BitVec("k", W), z3.BitVec("nc", W), z3.BitVec("a", W)
+    for nme, t in (("k", k), ("nc", nc), ("a", a)):
+        ctx.inputs[nme] = t
+    ctx.solver.add(z3.ULE(1, nc), z3.ULE(nc, max_nc), z3.ULE(k, nc), z3.ULE(1, a), z3.ULE(a, 99))
+    F64 = z3.Float64()
+    k_fp = core.SFP(z3.fpUnsignedToFP(core.RNE, k, F64))
+    nc_fp = core.SFP(z3.fpUnsignedToFP(core.RNE, nc, F64))
+    p = core.SFP(z3.fpDiv(core.RNE, z3.fpUnsignedToFP(core.RNE, a, F64), z3.FPVal(100.0, F64)))     # the double nearest to a/100 (what the literal 0.<a> is)
+    flags, mute = ctx.call("saturation", v.saturation, _CountedData(k_fp, nc_fp), 1.0, v_per_sec=1.0, fs=30000, proportion=p, mute_window_samples=1)
+    f0 = np.asarray(arrays._plain(flags), dtype=object).ravel().tolist()
+    if not ctx.oblige("one_flag_for_the_sample", len(f0) == 1, detail={"n": len(f0)}):
+        return
+    got = core._b(f0[0])
+    got_t = core._bt(got) if not isinstance(got, bool) else z3.BoolVal(got)
+    k32, nc32, a32 = z3.ZeroExt(16, k), z3.ZeroExt(16, nc), z3.ZeroExt(16, a)
+    spec = z3.UGT(k32 * 100, a32 * nc32)
+    fp.oblige_fp(ctx, "flag_iff_more_than_the_proportion_of_channels_ieee", got_t == spec, {"k": k, "nc": nc, "a": a}, timeout_s=1500)
+
+
 def _n(b):
     if isinstance(b, core.SBool):
         return b.num()
@@ -113,6 +220,7 @@ def cases(tier):
                                {"nc": nc, "ns": ns, "win": win, "per_channel": pc, "sym_fs": False}, timeout_s=900))
     cs.append(Case("sat_2x3_w3_symfs", "case_saturation", {"nc": 2, "ns": 3, "win": 3, "per_channel": False, "sym_fs": True}, timeout_s=900))
     # degenerate but legal sizes: one channel, one sample, a hard mute (window of one sample), an even window
+    cs.append(Case("proportion_ieee_nc400", "case_proportion_ieee", {"max_nc": 400}, timeout_s=2400))
     cs.append(Case("sat_2x3_w3_range_list", "case_saturation", {"nc": 2, "ns": 3, "win": 3, "per_channel": True, "sym_fs": False, "as_list": True}, timeout_s=900))
     cs.append(Case("sat_1x3_w3_scalar", "case_saturation", {"nc": 1, "ns": 3, "win": 3, "per_channel": False, "sym_fs": False}, timeout_s=900))
     cs.append(Case("sat_1x3_w3_perch", "case_saturation", {"nc": 1, "ns": 3, "win": 3, "per_channel": True, "sym_fs": False}, timeout_s=900))
@@ -138,6 +246,18 @@ def twins(tier):
 
 def replay(case, params, cex):
     m = cex["model"]
+    if case.startswith("proportion_ieee"):
+        return f"""
+import ibldsp.voltage as v
+k, nc, a = {int(m['k'])}, {int(m['nc'])}, {int(m['a'])}
+p = a / 100                      # the proportion as a user writes it
+d = np.zeros((nc, 4)); d[:k, :] = 1.0          # k channels sit at full scale (range 1.0) on every sample: no slew at all
+flags, mute = v.saturation(d.copy(), 1.0, v_per_sec=1e9, fs=30000, proportion=p, mute_window_samples=3)
+want = 100 * k > a * nc
+print(k, nc, p, flags, want)
+if np.shape(flags) != (4,) or bool(flags[1]) != want: reproduced(f'{{k}} of {{nc}} channels beyond 98 % of the range with proportion {{p}}: flagged={{bool(flags[1])}}, more than the proportion of channels: {{want}}')
+not_reproduced()
+"""
     nc, ns, win = params["nc"], params["ns"], params["win"]
     d = [[str(m[f"d{c}_{t}"]) for t in range(ns)] for c in range(nc)]
     V = [str(m[f"V{c}"]) for c in range(nc)] if params["per_channel"] else str(m["V"])
